@@ -276,7 +276,7 @@ theorem metaRawOf_spec (L : Lib) (text : Cps) :
 theorem xmlOf_ok (tt : Nat) (txt : Cps) : ∃ x, xmlOf tt txt = .ok x := by
   unfold xmlOf
   by_cases h1 : (tt == C20.XML_APPLICATION_TYPE) = true <;> by_cases h2 : (tt == C20.HTML_TEXT_TYPE) = true <;>
-    simp [h1, h2, sniffCaught_spec]
+    by_cases h3 : 4 ≤ txt.length <;> simp [h1, h2, h3, sniffCaught_spec]
 
 theorem getMetaInfo_ok_of_not_raises (m : MetaRaw) (h : m ≠ .raises) : ∃ p, getMetaInfo m = .ok p := by
   cases m with
